@@ -123,7 +123,8 @@ def verify_block(ex, fi, c, name, label=None):
         for ln in spec.get('lemmas', c.lemmas):
             st = st.assume(lemma_formula(ex, ln))
         raises = spec.get('raises', {})
-        st = st.copy(handlers=(tuple(raises.keys()),)).snap('old')
+        may = spec.get('may_raise', {})
+        st = st.copy(handlers=(tuple(raises.keys()) + tuple(may.keys()),)).snap('old')
         rconds = {k_: eval_clause(ex, st, v_, scx) for k_, v_ in raises.items()}
         outs = exec_block(ex, st, stmts, cx)
         ex.stats['paths'] += len(outs)
@@ -136,6 +137,9 @@ def verify_block(ex, fi, c, name, label=None):
                 block_frame_check(ex, st, s, spec, cx, lab)
             elif kind == 'raise' and val in rconds:
                 ex.oblige(s, f'{lab}/raises[{val}].if', rconds[val], kind='raises-iff')
+            elif kind == 'raise' and val in may:
+                if isinstance(may[val], str) and may[val] != 'True':
+                    ex.oblige(s, f'{lab}/may_raise[{val}].if', eval_clause(ex, st, may[val], scx), kind='raises-iff')
             else:
                 ex.oblige(s, f'{lab}/unexpected[{kind}:{val}]', z3.BoolVal(False), kind='absence')
         add_global_axioms(ex)
